@@ -29,23 +29,24 @@ type KCase struct {
 		Pos string  `json:"pos"`
 	} `json:"c"`
 	E struct {
-		Sqe     int64     `json:"sqe"`
-		Dot     int64     `json:"dot"`
-		Nx      int64     `json:"nx"`
-		Ny      int64     `json:"ny"`
-		Err     bool      `json:"err"`
-		Q       []int64   `json:"q"`
-		Allowed [][]int64 `json:"allowed"`
-		Clamp   []int64   `json:"clamp"`
-		AbsMax  int64     `json:"absmax"`
-		N       int64     `json:"n"`
-		Rx      []int64   `json:"rx"`
-		Ry      []int64   `json:"ry"`
-		Quantum []int64   `json:"quantum"`
-		Qx      []int64   `json:"qx"`
-		Qy      []int64   `json:"qy"`
-		Exact   bool      `json:"exact"`
-		ExactY  bool      `json:"exacty"`
+		Sqe      int64     `json:"sqe"`
+		Dot      int64     `json:"dot"`
+		Nx       int64     `json:"nx"`
+		Ny       int64     `json:"ny"`
+		Err      bool      `json:"err"`
+		Q        []int64   `json:"q"`
+		Allowed  [][]int64 `json:"allowed"`
+		AllowedY [][]int64 `json:"allowedy"`
+		Clamp    []int64   `json:"clamp"`
+		AbsMax   int64     `json:"absmax"`
+		N        int64     `json:"n"`
+		Rx       []int64   `json:"rx"`
+		Ry       []int64   `json:"ry"`
+		Quantum  []int64   `json:"quantum"`
+		Qx       []int64   `json:"qx"`
+		Qy       []int64   `json:"qy"`
+		Exact    bool      `json:"exact"`
+		ExactY   bool      `json:"exacty"`
 	} `json:"e"`
 }
 
@@ -373,29 +374,54 @@ func (k *kctx) rb8(id string, kc *KCase) {
 				return
 			}
 		}
-		if !kc.E.ExactY {
-			return
-		}
-		// distance on the compressed vectors: ComputeDistanceToVector quantises the raw query (Quantizer.Quantize, the
-		// raw-vector law) and returns the cosine distance between that and the integers the index really stores
+		// distance on the compressed vectors: the query is normalised, then quantised by the same rule as a stored
+		// vector; the result is the cosine distance between the integers the index really stores and the quantised unit
+		// query. Where a rounding boundary of the query is ambiguous, any admissible combination is accepted.
 		d, err := ix.ix.ComputeDistanceToVector(ix.key(x), y)
 		k.res.Checks++
-		var dot, nx int64
+		var nx int64
 		for i := range qx {
-			dot += qx[i] * kc.E.Qy[i]
 			nx += qx[i] * qx[i]
 		}
-		want := 1.0
-		if nx != 0 {
-			qn := math.Sqrt(float64(kc.E.Ny))
-			if kc.E.Ny == 0 {
-				qn = 1 // zero query: norm replaced by 1, dot 0
+		wants := []float64{}
+		qy := make([]int64, len(y))
+		var rec func(i int)
+		rec = func(i int) {
+			if i == len(qy) {
+				var dot, ny int64
+				for j := range qy {
+					dot += qx[j] * qy[j]
+					ny += qy[j] * qy[j]
+				}
+				want := 1.0
+				if nx != 0 {
+					qn := math.Sqrt(float64(ny))
+					if ny == 0 {
+						qn = 1 // zero query: norm replaced by 1, dot 0
+					}
+					sim := float64(dot) / (qn * math.Sqrt(float64(nx)))
+					want = 1 - math.Max(-1, math.Min(1, sim))
+				}
+				wants = append(wants, want)
+				return
 			}
-			sim := float64(dot) / (qn * math.Sqrt(float64(nx)))
-			want = 1 - math.Max(-1, math.Min(1, sim))
+			for _, q := range kc.E.AllowedY[i] {
+				qy[i] = q
+				rec(i + 1)
+			}
 		}
-		if err != nil || !close64(d, want) {
-			k.fail(id, "index_distance_i8", kc.C, "cosine/int8 index distance(stored %v = %v, query %v -> %v) = %v (%v), cosine distance of these integer vectors = %v", x, qx, y, kc.E.Qy, d, err, want)
+		rec(0)
+		ok = err == nil
+		if ok {
+			ok = false
+			for _, w := range wants {
+				if close64(d, w) {
+					ok = true
+				}
+			}
+		}
+		if !ok {
+			k.fail(id, "index_distance_i8", kc.C, "cosine/int8 index distance(stored %v = %v, query %v -> unit vector quantised to one of %v) = %v (%v), cosine distance of these integer vectors: %v", x, qx, y, kc.E.AllowedY, d, err, wants)
 		}
 	})
 }
